@@ -159,6 +159,40 @@ def check_decisions(subj, events, cnt, viol, label):
     return nondeg, nonuni
 
 
+def extension_variants(subj, rng):
+    from ..ast import StochAst, clone
+
+    ast = clone(subj.ast)
+    changed = False
+    for e in ast.elements:
+        if not isinstance(e, StochAst):
+            continue
+        for t in e.repeats + e.ends:
+            ds = [d for d, _ in t.descriptors()]
+            for d in ds:
+                if isinstance(d.weight, list):
+                    nz = [i for i, w in enumerate(d.weight) if w != 0.0]
+                    vals = [d.weight[i] for i in nz]
+                    if len(set(vals)) >= 2:
+                        sh = vals[1:] + vals[:1]
+                        for i, v in zip(nz, sh):
+                            d.weight[i] = v
+                        changed = True
+            sc = [d for d in ds if not isinstance(d.weight, list)]
+            ws = [d.weight for d in sc]
+            if len(sc) >= 2 and len(set(map(repr, ws))) >= 2 and rng.random() < 0.5:
+                for d, w in zip(sc, ws[1:] + ws[:1]):
+                    d.weight = w
+                changed = True
+    if not changed:
+        return []
+    try:
+        v = W.Subject(subj.seed, ast=ast, targets=dict(subj.targets), sp=subj.sp)
+    except ValueError:
+        return []
+    return [v] if v.closable and v.text != subj.text else []
+
+
 def run_case(case):
     cnt = collections.Counter()
     viol, nt = [], set()
@@ -177,60 +211,63 @@ def run_case(case):
                 break
         if subj is None:
             return {"viol": [], "nt": [], "cnt": {"exact_no_subject": 1}}
-        subj.parse()
-        cnt["exact_instances"] += 1
-        impl = collections.Counter()
-        paths, total, nondeg, nonuni = 0, 0.0, 0, 0
-        bad_paths = 0
+        # the same description again with the VALUES of its extensions permuted (non-zero entries of every transition list, scalar weights within a
+        # token): same plain text, same sums -- state kept between notations (a cache keyed by the text) would let the first one's law leak into the second
+        for subj in [subj] + extension_variants(subj, rng):
+            subj.parse()
+            cnt["exact_instances"] += 1
+            impl = collections.Counter()
+            paths, total, nondeg, nonuni = 0, 0.0, 0, 0
+            bad_paths = 0
 
-        def run(rg):
-            return W.observe_generation(subj.lib, rg, budget=subj.residue_budget())
+            def run(rg):
+                return W.observe_generation(subj.lib, rg, budget=subj.residue_budget())
 
-        for rg, out in R.enumerate_paths(run, limit=case["limit"]):
-            obs = out[1]
-            paths += 1
-            total += rg.prob
-            for v in obs["violations"]:
-                if v["cls"].startswith("c08."):
-                    v = dict(v)
-                    v["text"] = subj.text
-                    viol.append(v)
-            if obs["status"] != "ok":
-                bad_paths += 1
-                impl[f"<{obs['status']}:{type(obs['exc']).__name__ if obs['exc'] else ''}>"] += rg.prob
-                continue
-            impl[obs["mol"].smiles] += rg.prob
-            if paths <= 40:
-                a, b = check_decisions(subj, obs["events"], cnt, viol, "script" + ",".join(str(t[0]) for t in rg.trace_ranks))
-                nondeg = max(nondeg, a)
-                nonuni = max(nonuni, b)
-        cnt["exact_paths"] += paths
-        if not R.enumerate_paths.last["complete"]:
-            cnt["exact_truncated"] += 1
-        else:
-            if abs(total - 1.0) > 1e-9:
-                return {"harness_error": f"path probabilities sum to {total!r} for {subj.text}"}
-            try:
-                ref = model.exact_distribution(subj.cm, subj.targets)
-            except model.ModelBudget:
-                cnt["exact_ref_budget"] += 1
-                cnt.update(trace.take_counters())
-                return {"viol": G.dedupe(viol), "nt": [], "cnt": dict(cnt)}
-            except model.Stuck as exc:
-                return {"harness_error": f"reference model stuck on an input it proved well-posed: {exc}: {subj.text}"}
-            cnt["exact_instances_decided"] += 1
-            cnt["exact_distinct_molecules"] += len(ref)
-            worst = 0.0
-            for k in set(ref) | set(impl):
-                a, b = ref.get(k, 0.0), impl.get(k, 0.0)
-                worst = max(worst, abs(a - b))
-                if abs(a - b) > 1e-9:
-                    side = "only-generated" if a == 0.0 else ("never-generated" if b == 0.0 else "probability-differs")
-                    viol.append({"cls": f"c08.exact.{side}", "msg": f"P({k}) = {b!r} by enumeration of the generator's {paths} choice sequences, {a!r} from the notation", "text": subj.text, "targets": subj.targets, "ref": dict(ref), "impl": dict(impl)})
-                    break
-            if nondeg >= 2 and nonuni >= 1:
-                nt.add(subj.text)
-            sample = {"input": subj.text, "forced_targets": subj.targets, "choice_sequences": paths, "distribution_from_notation": {k: round(v, 6) for k, v in list(ref.items())[:6]}, "max_abs_difference": worst}
+            for rg, out in R.enumerate_paths(run, limit=case["limit"]):
+                obs = out[1]
+                paths += 1
+                total += rg.prob
+                for v in obs["violations"]:
+                    if v["cls"].startswith("c08."):
+                        v = dict(v)
+                        v["text"] = subj.text
+                        viol.append(v)
+                if obs["status"] != "ok":
+                    bad_paths += 1
+                    impl[f"<{obs['status']}:{type(obs['exc']).__name__ if obs['exc'] else ''}>"] += rg.prob
+                    continue
+                impl[obs["mol"].smiles] += rg.prob
+                if paths <= 40:
+                    a, b = check_decisions(subj, obs["events"], cnt, viol, "script" + ",".join(str(t[0]) for t in rg.trace_ranks))
+                    nondeg = max(nondeg, a)
+                    nonuni = max(nonuni, b)
+            cnt["exact_paths"] += paths
+            if not R.enumerate_paths.last["complete"]:
+                cnt["exact_truncated"] += 1
+            else:
+                if abs(total - 1.0) > 1e-9:
+                    return {"harness_error": f"path probabilities sum to {total!r} for {subj.text}"}
+                try:
+                    ref = model.exact_distribution(subj.cm, subj.targets)
+                except model.ModelBudget:
+                    cnt["exact_ref_budget"] += 1
+                    cnt.update(trace.take_counters())
+                    return {"viol": G.dedupe(viol), "nt": [], "cnt": dict(cnt)}
+                except model.Stuck as exc:
+                    return {"harness_error": f"reference model stuck on an input it proved well-posed: {exc}: {subj.text}"}
+                cnt["exact_instances_decided"] += 1
+                cnt["exact_distinct_molecules"] += len(ref)
+                worst = 0.0
+                for k in set(ref) | set(impl):
+                    a, b = ref.get(k, 0.0), impl.get(k, 0.0)
+                    worst = max(worst, abs(a - b))
+                    if abs(a - b) > 1e-9:
+                        side = "only-generated" if a == 0.0 else ("never-generated" if b == 0.0 else "probability-differs")
+                        viol.append({"cls": f"c08.exact.{side}", "msg": f"P({k}) = {b!r} by enumeration of the generator's {paths} choice sequences, {a!r} from the notation", "text": subj.text, "targets": subj.targets, "ref": dict(ref), "impl": dict(impl)})
+                        break
+                if nondeg >= 2 and nonuni >= 1:
+                    nt.add(subj.text)
+                sample = {"input": subj.text, "forced_targets": subj.targets, "choice_sequences": paths, "distribution_from_notation": {k: round(v, 6) for k, v in list(ref.items())[:6]}, "max_abs_difference": worst}
     else:
         for k in range(case["mols"]):
             try:
